@@ -451,7 +451,7 @@ def parseIndexSpec (ws : List String) : Option Spec :=
 def cloneModel (line : String) : String :=
   match words line with
   | "clone" :: kind :: ws =>
-    if !(kind == "ast" || kind == "noast") then "bad-op" else
+    if !(kind == "ast" || kind == "noast" || kind == "astsci" || kind == "noastsci") then "bad-op" else
     match parseWS ws with
     | some files =>
       match compileAll files with
@@ -472,7 +472,7 @@ def checkCloneSection (sec : String) : Option String :=
   match kvOf ws "equal", kvOf ws "shared", kvOf ws "ident", kvOf ws "ast", kvOf ws "indep", kvOf ws "linked" with
   | some eq, some sh, some id, some ast, some ind, some lk =>
     if eq != "1" then some s!"fails clone-not-equal {f}"
-    else if sh != "0" then some s!"fails clone-shares-messages {f} shared={sh}"
+    else if sh != "0" then some s!"fails clone-shares-memory {f} shared={sh} at={(kvOf ws "sharedat").getD "?"}"
     else match id.splitOn "/" with
       | [a, b] =>
         if a != b then some s!"fails clone-index-differs {f} ident={id} missing={(kvOf ws "missing").getD "?"}"
